@@ -893,3 +893,108 @@ Proof. intros Hwf Hc. exact (abf_state_with_input_data c l h b a Hwf (steady_con
 Lemma example_apply_const :
   apply_const true [@mkIn R [(1/2)%R] [1%R] [0%R] [3%R] false true; @mkIn R [(1/2)%R] [0%R] [0%R] [3%R] false true].
 Proof. repeat constructor. Qed.
+
+
+(* ---------------------------------------------------------------- state files: restart and reload events *)
+
+Definition event_ok (ev : @abf_event R) : Prop :=
+  match ev with
+  | EvStep _ => True
+  | EvRestart d => forall b, (0 <= fst d b)%Z
+  | EvReload d => forall b, (0 <= fst d b)%Z
+  end.
+
+Lemma cnt_nonneg_event c s ev : event_ok ev -> (forall b, 0 <= s_cnt s b)%Z ->
+  forall b, (0 <= s_cnt (abf_event_apply Rops c s ev) b)%Z.
+Proof.
+  intros Hok H b. destruct ev as [i|d|d]; cbn [abf_event_apply].
+  - unfold abf_step. cbn [fst s_cnt]. apply cnt_nonneg_step. exact H.
+  - unfold abf_set_grids. cbn [s_cnt]. apply Hok.
+  - unfold abf_set_grids. cbn [s_cnt]. apply Hok.
+Qed.
+
+Lemma cnt_nonneg_events c evs : Forall event_ok evs -> forall s, (forall b, 0 <= s_cnt s b)%Z ->
+  forall b, (0 <= s_cnt (fold_left (abf_event_apply Rops c) evs s) b)%Z.
+Proof.
+  induction evs as [|ev evs IH]; intros Hok s H b; cbn [fold_left]; [apply H|].
+  inversion Hok as [|x l Hx Hl]; subst. apply IH; [exact Hl|]. apply cnt_nonneg_event; assumption.
+Qed.
+
+(* After ANY sequence of steps, restarts from a state file and reloads of a state file, the ABF force of the next
+   step is spec_force of the CURRENT grids (those after this step's accumulation), of the current bin and of the
+   configuration: it depends on the past only through the grids.  (A cached quantity that is not refreshed when
+   the grids are read from a file breaks exactly this.) *)
+Theorem applied_force_function_of_grids c evs i k :
+  Forall event_ok evs ->
+  (k < c_nd c)%nat -> (0 <= c_min c < c_full c)%Z -> (c_cap c = true -> 0 <= vget Rops (c_maxf c) k) ->
+  let s := abf_run_events Rops c evs in
+  let s1 := fst (abf_step Rops c s i) in
+  vget Rops (o_fabf (snd (abf_step Rops c s i))) k
+  = spec_force c (i_apply i) (s_cnt s1) (s_sum s1) (bins Rops c (i_x i)) k.
+Proof.
+  intros Hok Hk Hmf Hcap. cbn zeta. unfold abf_step. cbn [fst snd o_fabf s_cnt s_sum].
+  unfold st_fabf, st_bin. apply applied_force_spec; try assumption.
+  apply cnt_nonneg_step. unfold abf_run_events. apply cnt_nonneg_events; [exact Hok|].
+  intros b. unfold abf_init. cbn [s_cnt]. lia.
+Qed.
+
+(* two pasts that end with the same grids give the same force *)
+Corollary same_grids_same_force c evs1 evs2 i k :
+  Forall event_ok evs1 -> Forall event_ok evs2 ->
+  (k < c_nd c)%nat -> (0 <= c_min c < c_full c)%Z -> (c_cap c = true -> 0 <= vget Rops (c_maxf c) k) ->
+  let s1 := fst (abf_step Rops c (abf_run_events Rops c evs1) i) in
+  let s2 := fst (abf_step Rops c (abf_run_events Rops c evs2) i) in
+  s_cnt s1 = s_cnt s2 -> s_sum s1 = s_sum s2 ->
+  vget Rops (o_fabf (snd (abf_step Rops c (abf_run_events Rops c evs1) i))) k
+  = vget Rops (o_fabf (snd (abf_step Rops c (abf_run_events Rops c evs2) i))) k.
+Proof.
+  intros H1 H2 Hk Hmf Hcap. cbn zeta. intros Ec Es.
+  pose proof (applied_force_function_of_grids c evs1 i k H1 Hk Hmf Hcap) as F1.
+  pose proof (applied_force_function_of_grids c evs2 i k H2 Hk Hmf Hcap) as F2.
+  cbn zeta in F1, F2. rewrite F1, F2, Ec, Es. reflexivity.
+Qed.
+
+(* T1 after a restart: whatever happened before, the grids after a restart from the data set d followed by the
+   steps h are d plus the samples attributed in h *)
+Lemma fresh_set_grids c d : fresh (abf_set_grids Rops c (abf_init Rops c) d 0).
+Proof. split; reflexivity. Qed.
+
+Lemma run_events_app c evs1 evs2 :
+  abf_run_events Rops c (evs1 ++ evs2) = fold_left (abf_event_apply Rops c) evs2 (abf_run_events Rops c evs1).
+Proof. unfold abf_run_events. apply fold_left_app. Qed.
+
+Lemma run_events_steps c h : forall s,
+  fold_left (abf_event_apply Rops c) (map (@EvStep R) h) s = fst (abf_run_from Rops c s h).
+Proof.
+  induction h as [|i h IH]; intros s; cbn [map fold_left abf_run_from fst snd abf_event_apply]; [reflexivity|]. apply IH.
+Qed.
+
+Theorem abf_state_after_restart c evs d h b a :
+  wf_cfg c -> steady c a h ->
+  let s0 := abf_set_grids Rops c (abf_init Rops c) d 0 in
+  let s := abf_run_events Rops c (evs ++ [EvRestart d] ++ map (@EvStep R) h) in
+  let S := attributed Rops c (ABFModel.trace_from Rops c s0 h) in
+  s_cnt s b = (fst d b + cnt_of b S)%Z /\
+  forall k, (k < c_nd c)%nat -> vget Rops (s_sum s b) k = vget Rops (snd d b) k * IZR (fst d b) - fsum_of k b S.
+Proof.
+  intros Hwf Hst. cbn zeta.
+  rewrite run_events_app. rewrite fold_left_app. cbn [fold_left abf_event_apply]. rewrite run_events_steps.
+  pose proof (run_from_fresh c (abf_set_grids Rops c (abf_init Rops c) d 0) h b a Hwf Hst (fresh_set_grids c d)) as H.
+  cbn zeta in H. destruct H as [Hc Hs]. split.
+  - rewrite Hc. reflexivity.
+  - intros k Hk. rewrite (Hs k Hk). unfold abf_set_grids. cbn [s_sum]. rewrite vget_vbuild by exact Hk. reflexivity.
+Qed.
+
+Theorem abf_state_after_restart_const c evs d h b a :
+  wf_cfg c -> apply_const a h ->
+  let s0 := abf_set_grids Rops c (abf_init Rops c) d 0 in
+  let s := abf_run_events Rops c (evs ++ [EvRestart d] ++ map (@EvStep R) h) in
+  let S := attributed Rops c (ABFModel.trace_from Rops c s0 h) in
+  s_cnt s b = (fst d b + cnt_of b S)%Z /\
+  forall k, (k < c_nd c)%nat -> vget Rops (s_sum s b) k = vget Rops (snd d b) k * IZR (fst d b) - fsum_of k b S.
+Proof. intros Hwf Hc. exact (abf_state_after_restart c evs d h b a Hwf (steady_const c a h Hc)). Qed.
+
+Lemma example_event_ok : Forall event_ok [EvStep (@mkIn R [(1/2)%R] [1%R] [0%R] [0%R] false true);
+                                          EvRestart ((fun _ => 2%Z), (fun _ => [1%R]));
+                                          EvReload ((fun _ => 0%Z), (fun _ => [0%R]))].
+Proof. repeat constructor; intros b; cbn [fst]; lia. Qed.
